@@ -164,6 +164,11 @@ def parse_setter(t, where, name, params, body, cfg_re, self_names):
             continue
         break
     if not re.fullmatch(r"(?:" + final_ok + r")", rest.strip()):
+        # `self.a().b()`: the method delegates to other argument-less setters of the same type, in this order
+        mm = re.fullmatch(r"self((?:\s*\.\s*\w+\(\))+)", rest.strip())
+        if mm and not stmts and arg_kind == "none" and "self" in self_names:
+            names = re.findall(r"\.\s*(\w+)\(\)", mm.group(1))
+            return arg_kind, [("delegate", n) for n in names]
         raise t.TranslateError(f"{where}: fn {name}: unsupported tail {rest.strip()[:80]!r}")
     return arg_kind, stmts
 
@@ -175,9 +180,9 @@ def lean_setters(name, items, doc):
     return f"/-- {doc} -/\ndef {name} : List Setter := [\n" + ",\n".join(rows) + "]\n"
 
 
-def gen_setters(t):
+def gen_setters_rs(t):
     R = t.REPO
-    out = ["-- GENERATED by tools/translate.py from /repo/src/{builder,python,wasm}.rs — do not edit",
+    out = ["-- GENERATED by tools/translate.py from /repo/src/builder.rs — do not edit",
            "import Grexv.Model.GenTypes", "namespace Grexv.Gen\n"]
     # ---------------- builder.rs
     p = os.path.join(R, "src", "builder.rs")
@@ -195,15 +200,47 @@ def gen_setters(t):
             if norm(body) != "RegExp::from(&mut self.test_cases, &self.config).to_string()":
                 raise t.TranslateError(f"{p}: fn build is not `RegExp::from(&mut self.test_cases, &self.config).to_string()`")
         elif name == "from_file":
-            from_file_delegates = "Ok(file_content) => { Self::from(&file_content.lines().map(|it| it.to_string()).collect_vec()) }" in norm(body)
+            nb = norm(body)
+            exact = "Ok(file_content) => { Self::from(&file_content.lines().map(|it| it.to_string()).collect_vec()) }" in nb
+            # the same data flow written differently: the lines of the file content, each turned into an owned string by one of
+            # the std conversions, collected and handed to `from` unchanged — and nothing that filters, trims or reorders
+            mapper = re.search(r"\.lines\(\)\s*\.map\((\|\w+\| \w+\.(?:to_string|to_owned|into)\(\)|String::from|str::to_string|str::to_owned|ToString::to_string|ToOwned::to_owned|Into::into)\)\s*\.(?:collect_vec\(\)|collect::<Vec<(?:String|_)>>\(\))", nb)
+            forbidden = re.search(r"\b(trim\w*|filter\w*|skip\w*|take\w*|rev|sort\w*|dedup\w*|to_lowercase|to_uppercase|replace\w*|split\w*|chars|truncate|pop|remove|retain|step_by|chain|zip)\b", nb)
+            loose = bool(mapper) and not forbidden and len(re.findall(r"Self::from\(", nb)) == 1 and len(re.findall(r"\.lines\(\)", nb)) == 1
+            from_file_delegates = exact or loose
         else:
             raise t.TranslateError(f"{p}: unexpected function {name} in the builder")
     if len(rs) != len(SETTER_IDS):
         raise t.TranslateError(f"{p}: expected {len(SETTER_IDS)} setters, found {len(rs)}")
+    # resolve delegation (one level: the delegates must be plain argument-less setters)
+    by_id = {sid: (kind, stmts) for sid, kind, stmts in rs}
+    resolved = []
+    for sid, kind, stmts in rs:
+        if stmts and all(isinstance(x, tuple) for x in stmts):
+            flat = []
+            for _, n in stmts:
+                if n not in SETTER_IDS or SETTER_IDS[n] not in by_id:
+                    raise t.TranslateError(f"{p}: a setter delegates to unknown method {n}")
+                k2, s2 = by_id[SETTER_IDS[n]]
+                if k2 != "none" or any(isinstance(x, tuple) for x in s2):
+                    raise t.TranslateError(f"{p}: a setter delegates to {n}, which takes an argument or delegates itself")
+                flat.extend(s2)
+            resolved.append((sid, kind, flat))
+        else:
+            resolved.append((sid, kind, stmts))
+    rs = resolved
     out.append(lean_setters("rsSetters", rs, "setters of `RegExpBuilder` (src/builder.rs)"))
     out.append(f"def rsFromRejectsEmpty : Bool := {'true' if from_checks_empty else 'false'}")
     out.append(f"/-- `from_file` = `from` on `str::lines` of the file -/\ndef rsFromFileDelegatesToFrom : Bool := {'true' if from_file_delegates else 'false'}\n")
 
+    out.append("\nend Grexv.Gen")
+    t.write_if_changed("SettersRs.lean", "\n".join(out) + "\n")
+
+
+def gen_setters_py(t):
+    R = t.REPO
+    out = ["-- GENERATED by tools/translate.py from /repo/src/python.rs — do not edit",
+           "import Grexv.Model.GenTypes", "namespace Grexv.Gen\n"]
     # ---------------- python.rs
     p = os.path.join(R, "src", "python.rs")
     src = t.strip_comments(t.read(p))
@@ -236,6 +273,14 @@ def gen_setters(t):
     out.append(f"def pyNewRejectsEmpty : Bool := {'true' if py_new_rejects else 'false'}")
     out.append(f"def pyBuildRewritesWhenEscaped : Bool := {'true' if py_build_rewrites else 'false'}\n")
 
+    out.append("\nend Grexv.Gen")
+    t.write_if_changed("SettersPy.lean", "\n".join(out) + "\n")
+
+
+def gen_setters_wasm(t):
+    R = t.REPO
+    out = ["-- GENERATED by tools/translate.py from /repo/src/wasm.rs — do not edit",
+           "import Grexv.Model.GenTypes", "namespace Grexv.Gen\n"]
     # ---------------- wasm.rs
     p = os.path.join(R, "src", "wasm.rs")
     src = t.strip_comments(t.read(p))
@@ -249,8 +294,12 @@ def gen_setters(t):
             wasm.append((SETTER_IDS[snake], kind, stmts))
         elif name == "from":
             b = norm(body)
-            wasm_from = b == ("let strs = testCases .iter() .filter_map(|it| it.as_string()) .collect_vec(); if strs.is_empty() { "
-                              "return Err(JsValue::from(MISSING_TEST_CASES_MESSAGE)); } Ok(RegExpBuilder { builder: Builder::from(&strs), })")
+            # the same statements with any local names; the builder either built inside the struct literal or bound first
+            mm = re.fullmatch(r"let (\w+) = testCases \.iter\(\) \.filter_map\(\|(\w+)\| (\w+)\.as_string\(\)\) \.collect_vec\(\); "
+                              r"if (\w+)\.is_empty\(\) \{ return Err\(JsValue::from\(MISSING_TEST_CASES_MESSAGE\)\); \} "
+                              r"(?:Ok\(RegExpBuilder \{ builder: Builder::from\(&(\w+)\),? \}\)"
+                              r"|let builder = Builder::from\(&(\w+)\); Ok\(RegExpBuilder \{ builder,? \}\))", b)
+            wasm_from = bool(mm) and mm.group(2) == mm.group(3) and mm.group(4) == mm.group(1) and (mm.group(5) or mm.group(6)) == mm.group(1)
             if not wasm_from:
                 raise t.TranslateError(f"{p}: fn from has an unexpected body: {b[:120]}")
         elif name == "build":
@@ -263,7 +312,11 @@ def gen_setters(t):
     out.append(f"def wasmFromRejectsEmptyBeforeLibrary : Bool := {'true' if wasm_from else 'false'}")
     out.append(f"def wasmBuildDelegates : Bool := {'true' if wasm_build else 'false'}")
     out.append("\nend Grexv.Gen")
-    t.write_if_changed("Setters.lean", "\n".join(out) + "\n")
+    t.write_if_changed("SettersWasm.lean", "\n".join(out) + "\n")
+
+
+def gen_setters_umbrella(t):
+    t.write_if_changed("Setters.lean", "-- GENERATED by tools/translate.py — do not edit\nimport Grexv.Gen.SettersRs\nimport Grexv.Gen.SettersPy\nimport Grexv.Gen.SettersWasm\n")
 
 
 def gen_cli(t):
@@ -360,5 +413,13 @@ def t_lean_string(s):
 
 
 def generate(t):
-    gen_setters(t)
-    gen_cli(t)
+    """every API file is generated on its own: an unreadable front end does not keep the others from being regenerated"""
+    errors = []
+    gen_setters_umbrella(t)
+    for step in (gen_setters_rs, gen_setters_py, gen_setters_wasm, gen_cli):
+        try:
+            step(t)
+        except t.TranslateError as e:
+            errors.append(str(e))
+    if errors:
+        raise t.TranslateError(" ;; ".join(errors))
